@@ -6,6 +6,7 @@
   its last arm raising `TypeError`.
 -/
 import KodaModel.PyRender
+import KodaModel.Properties.C12
 import KodaModel.Generated.RenderSrc
 import KodaModel.Generated.PredSrc
 
@@ -74,6 +75,127 @@ theorem src_render (cfg : RCfg) (recordVids : List Nat)
   | extraKeys ex => simp [runRender, Src.toSerializableErrs, RStmt.execL, RStmt.exec, RCond.eval, RErr.matches, RExp.eval, render, renderLeaf]
   | missingKey => simp [runRender, Src.toSerializableErrs, RStmt.execL, RStmt.exec, RCond.eval, RErr.matches, RExp.eval, render, renderLeaf]
   | custom id => simp [runRender, Src.toSerializableErrs, RStmt.execL, RStmt.exec, RCond.eval, RErr.matches, RExp.eval, render, renderLeaf]
+
+/-! ### the default callback: the function calling itself -/
+
+/-- the coercion errors in the tree are well-formed (`RWF`) at every depth -/
+def RWFk (vcls : Nat → RVld) : ErrK → Nat → Prop
+  | .coercion _ d, vid =>
+    (vcls vid = .uuid ∨ vcls vid = .decimal ∨ vcls vid = .datetime ∨ vcls vid = .date) → d ≠ .list ∧ d ≠ .tuple
+  | _, _ => True
+
+mutual
+def RWFTree (vcls : Nat → RVld) : Inv → Prop
+  | .mk k _ vid ch => RWFk vcls k vid ∧ RWFTreeL vcls ch
+def RWFTreeL (vcls : Nat → RVld) : List Inv → Prop
+  | [] => True
+  | e :: es => RWFTree vcls e ∧ RWFTreeL vcls es
+end
+
+/-- one level: if the callback answers on the children what `renderFull` answers, the translated body answers on the
+    node what `renderFull` answers -/
+theorem src_render_step (up recordVids : List Nat) (vcls : Nat → RVld) (next : Inv → Except Exn Ser)
+    (hrec : ∀ vid, recordVids.contains vid = (vcls vid == .dataclass || vcls vid == .namedtuple))
+    (k : ErrK) (v : PyVal) (vid : Nat) (ch : List Inv) (hwf : RWFk vcls k vid)
+    (h : mapME next ch = renderFullL up recordVids ch) :
+    runRenderM up vcls next Src.toSerializableErrs (.mk k v vid ch) = renderFull up recordVids (.mk k v vid ch) := by
+  cases k with
+  | type t =>
+    by_cases h1 : t = .dict
+    · subst h1
+      simp [runRenderM, Src.toSerializableErrs, RStmt.execLM, RStmt.execM, RCond.eval, RErr.matches, RExp.evalM, renderFull, renderLeaf]
+    · have e1 : (t == Ty.dict) = false := beq_false_of_ne h1
+      by_cases h2 : t = .list
+      · subst h2
+        simp [runRenderM, Src.toSerializableErrs, RStmt.execLM, RStmt.execM, RCond.eval, RErr.matches, RExp.evalM, renderFull, renderLeaf, e1]
+      · have e2 : (t == Ty.list) = false := beq_false_of_ne h2
+        by_cases h3 : t = .tuple
+        · subst h3
+          simp [runRenderM, Src.toSerializableErrs, RStmt.execLM, RStmt.execM, RCond.eval, RErr.matches, RExp.evalM, renderFull, renderLeaf, e1, e2]
+        · have e3 : (t == Ty.tuple) = false := beq_false_of_ne h3
+          simp [runRenderM, Src.toSerializableErrs, RStmt.execLM, RStmt.execM, RCond.eval, RErr.matches, RExp.evalM, renderFull, renderLeaf, e1, e2, e3]
+  | coercion compat dest =>
+    have hr := hrec vid
+    simp only [RWFk] at hwf
+    by_cases hl : dest = .list ∨ dest = .tuple
+    · have hnot : ¬ (vcls vid = .uuid ∨ vcls vid = .decimal ∨ vcls vid = .datetime ∨ vcls vid = .date) := by
+        intro hc; have := hwf hc; rcases hl with h | h <;> simp [h] at this
+      simp only [not_or] at hnot
+      obtain ⟨n1, n2, n3, n4⟩ := hnot
+      have tl : (Ty.tuple == Ty.list) = false := by decide
+      rcases hl with h | h <;> subst h <;>
+        simp [runRenderM, Src.toSerializableErrs, RStmt.execLM, RStmt.execM, RCond.eval, RErr.matches, RExp.evalM, renderFull,
+          renderLeaf, n1, n2, n3, n4, tl]
+    · simp only [not_or] at hl
+      have e1 : (dest == Ty.list) = false := beq_false_of_ne hl.1
+      have e2 : (dest == Ty.tuple) = false := beq_false_of_ne hl.2
+      cases hv : vcls vid <;>
+        simp [hv] at hr <;>
+        simp [runRenderM, Src.toSerializableErrs, RStmt.execLM, RStmt.execM, RCond.eval, RErr.matches, RExp.evalM, renderFull,
+          renderLeaf, hv, hr, e1, e2]
+  | preds pids => simp [runRenderM, Src.toSerializableErrs, RStmt.execLM, RStmt.execM, RCond.eval, RErr.matches, RExp.evalM, renderFull, renderLeaf]
+  | index idx => simp [runRenderM, Src.toSerializableErrs, RStmt.execLM, RStmt.execM, RCond.eval, RErr.matches, RExp.evalM, renderFull, h]
+  | keys ks => simp [runRenderM, Src.toSerializableErrs, RStmt.execLM, RStmt.execM, RCond.eval, RErr.matches, RExp.evalM, renderFull, h]
+  | map ks shape => simp [runRenderM, Src.toSerializableErrs, RStmt.execLM, RStmt.execM, RCond.eval, RErr.matches, RExp.evalM, renderFull, h]
+  | set => simp [runRenderM, Src.toSerializableErrs, RStmt.execLM, RStmt.execM, RCond.eval, RErr.matches, RExp.evalM, renderFull, h]
+  | union => simp [runRenderM, Src.toSerializableErrs, RStmt.execLM, RStmt.execM, RCond.eval, RErr.matches, RExp.evalM, renderFull, h]
+  | container =>
+    simp [runRenderM, Src.toSerializableErrs, RStmt.execLM, RStmt.execM, RCond.eval, RErr.matches, RExp.evalM, renderFull, h]
+    cases renderFullL up recordVids ch with
+    | error e => rfl
+    | ok cs =>
+      match cs with
+      | [] => rfl
+      | [c] => rfl
+      | _ :: _ :: _ => rfl
+  | extraKeys ex => simp [runRenderM, Src.toSerializableErrs, RStmt.execLM, RStmt.execM, RCond.eval, RErr.matches, RExp.evalM, renderFull, renderLeaf]
+  | missingKey => simp [runRenderM, Src.toSerializableErrs, RStmt.execLM, RStmt.execM, RCond.eval, RErr.matches, RExp.evalM, renderFull, renderLeaf]
+  | custom id => simp [runRenderM, Src.toSerializableErrs, RStmt.execLM, RStmt.execM, RCond.eval, RErr.matches, RExp.evalM, renderFull, renderLeaf]
+
+mutual
+/-- **the translated function with its default callback is `renderFull`**: for every error tree there is a recursion
+    depth from which on the translated `to_serializable_errs`, calling itself on the children, returns (or raises)
+    exactly what the model's `renderFull` does -/
+theorem src_render_full (up recordVids : List Nat) (vcls : Nat → RVld)
+    (hrec : ∀ vid, recordVids.contains vid = (vcls vid == .dataclass || vcls vid == .namedtuple)) :
+    ∀ e, RWFTree vcls e → ∃ n0, ∀ n, n0 ≤ n →
+      runRenderFuel up vcls Src.toSerializableErrs n e = renderFull up recordVids e
+  | .mk k v vid ch, hwf => by
+    simp only [RWFTree] at hwf
+    obtain ⟨n0, hn0⟩ := src_render_fullL up recordVids vcls hrec ch hwf.2
+    refine ⟨n0 + 1, ?_⟩
+    intro n hn
+    obtain ⟨m, rfl⟩ : ∃ m, n = m + 1 := ⟨n - 1, by omega⟩
+    simp only [runRenderFuel]
+    exact src_render_step up recordVids vcls _ hrec k v vid ch hwf.1 (hn0 m (by omega))
+theorem src_render_fullL (up recordVids : List Nat) (vcls : Nat → RVld)
+    (hrec : ∀ vid, recordVids.contains vid = (vcls vid == .dataclass || vcls vid == .namedtuple)) :
+    ∀ es, RWFTreeL vcls es → ∃ n0, ∀ n, n0 ≤ n →
+      mapME (runRenderFuel up vcls Src.toSerializableErrs n) es = renderFullL up recordVids es
+  | [], _ => ⟨0, fun _ _ => rfl⟩
+  | e :: es, hwf => by
+    simp only [RWFTreeL] at hwf
+    obtain ⟨a, ha⟩ := src_render_full up recordVids vcls hrec e hwf.1
+    obtain ⟨b, hb⟩ := src_render_fullL up recordVids vcls hrec es hwf.2
+    refine ⟨max a b, ?_⟩
+    intro n hn
+    simp only [mapME, renderFullL, ha n (by omega), hb n (by omega)]
+end
+
+/-- **C12 at the source**: on an error tree built from the library's own error types and predicates (`renderable`),
+    the translated `to_serializable_errs` with its default callback returns a rendering - it does not raise -/
+theorem C12_src_total (up recordVids : List Nat) (vcls : Nat → RVld)
+    (hrec : ∀ vid, recordVids.contains vid = (vcls vid == .dataclass || vcls vid == .namedtuple))
+    (e : Inv) (hwf : RWFTree vcls e) (hr : renderable up e = true) :
+    ∃ n0 s, ∀ n, n0 ≤ n → runRenderFuel up vcls Src.toSerializableErrs n e = .ok s := by
+  obtain ⟨n0, h⟩ := src_render_full up recordVids vcls hrec e hwf
+  obtain ⟨s, hs⟩ := C12_total up recordVids e hr
+  exact ⟨n0, s, fun n hn => by rw [h n hn, hs]⟩
+
+/-- non-vacuity: a type error under a key error under an index error, recursion depth 3 -/
+example : runRenderFuel [] (fun v => if v = 7 then .dataclass else .other "ListValidator") Src.toSerializableErrs 3
+    (.mk (.index [2]) .none 1 [.mk (.keys [.none]) .none 7 [.mk (.type .int) .none 9 []]]) =
+    .ok (.list [.list [.num 2, .dict [("k", .list [.msg])]]]) := by rfl
 
 /-- every predicate class the library defines has an arm in `pred_to_err_message`; anything else is a `TypeError` -/
 theorem src_pred_messages_cover :
